@@ -106,9 +106,9 @@ impl Check for Merkle {
     }
     fn runs(&self, tier: Tier) -> u64 {
         if tier == Tier::Quick {
-            400
+            4000
         } else {
-            30_000
+            100000
         }
     }
     fn components(&self) -> serde_json::Value {
